@@ -1,6 +1,7 @@
 SPECIFICATION SimSpec
 CONSTANTS
   WorkerCpus <- A_Workers
+  LateWorkers <- A_Late
   WorkerGroup <- A_Groups
   WorkerLife <- A_Life
   MaxTicks = 0
